@@ -101,6 +101,18 @@ func init() {
 		Judge:    judgeModel,
 		Timeout:  20 * time.Second,
 	})
+	core.Register("c06.applySource", &core.CheckDef{
+		Real: func(raw json.RawMessage) any {
+			var a c06lib.ApplyArgs
+			if err := json.Unmarshal(raw, &a); err != nil {
+				return map[string]any{"bad": err.Error()}
+			}
+			return c06lib.RealApply(a)
+		},
+		DriverOp: "applyInclude",
+		Judge:    judgeSource,
+		Timeout:  20 * time.Second,
+	})
 	core.Register("c06.paste", &core.CheckDef{
 		Real: func(raw json.RawMessage) any {
 			var a c06lib.PasteArgs
@@ -148,6 +160,34 @@ func judgeModel(args, real, drv json.RawMessage) *core.Verdict {
 		}
 	default:
 		return core.Disagree(fmt.Sprintf("outcome classes differ: real %s, model %s", core.Class(real), core.Class(drv)))
+	}
+	return nil
+}
+
+// judgeSource: an included file loaded without validation hands a section of any node kind to importResources.
+// Only include.go is judged here: a crash in another stage of the unvalidated pipeline is C01's business.
+func judgeSource(args, real, drv json.RawMessage) *core.Verdict {
+	var r, d map[string]json.RawMessage
+	json.Unmarshal(real, &r)
+	json.Unmarshal(drv, &d)
+	if p, isPanic := r["panic"]; isPanic {
+		if strings.Contains(string(p), "loader.importResource") || strings.Contains(string(p), "loader.ApplyInclude") {
+			return core.CrashVerdict(real)
+		}
+		return core.Skip("crash outside include.go")
+	}
+	if v := core.CrashVerdict(real); v != nil {
+		return v
+	}
+	modelNotMapping := string(d["err"]) == `"notMapping"`
+	realNotMapping := string(r["err"]) == `"notMapping"`
+	switch {
+	case modelNotMapping && r["err"] == nil:
+		return core.Disagree("model: non-mapping source section is an error; real code accepts it")
+	case realNotMapping && !modelNotMapping:
+		return core.Disagree("real code rejects a source section the model imports")
+	case r["ok"] != nil && d["ok"] != nil && !core.CanonEqual(r["ok"], d["ok"]):
+		return core.Skip("the unvalidated pipeline reshapes the section")
 	}
 	return nil
 }
@@ -505,6 +545,7 @@ func runC06(ctx *core.Ctx) {
 		ctx.Add("c06.applyInclude", randomApply(ctx, 1+ctx.Rng.Intn(3)))
 	}
 	streamApplyMalformed(ctx)
+	streamApplySourceKinds(ctx)
 	streamPaste(ctx)
 }
 
@@ -631,13 +672,9 @@ func streamImport(ctx *core.Ctx) {
 	}
 }
 
-// srcSection: the source of importResources is a validated model, so its sections are mappings or null
-func srcSection(v any) any {
-	if m, ok := v.(map[string]any); ok {
-		return m
-	}
-	return map[string]any{"x": v}
-}
+// srcSection: a validated included model has mappings or null here; with SkipValidation any kind can arrive
+// (then the import is an error, not a panic — fix 53f12a7), so every kind is sent as it is
+func srcSection(v any) any { return v }
 
 // streamApplyExhaustive enumerates the syntax × file-system situations of one include entry on a fixed small tree.
 func streamApplyExhaustive(ctx *core.Ctx) {
@@ -699,6 +736,26 @@ func streamApplyExhaustive(ctx *core.Ctx) {
 						ctx.Count(fmt.Sprintf("apply:exhaustive-call%d", ci))
 					}
 				}
+			}
+		}
+	}
+}
+
+// streamApplySourceKinds: with SkipValidation an included file can carry a resource section of any node kind
+// (exhaustive: 4 sections × 10 kinds × 2 renderings; a non-mapping `services` is already rejected by ApplyExtends);
+// importResource must answer with an error, never a panic.
+func streamApplySourceKinds(ctx *core.Ctx) {
+	for _, kind := range c06lib.Kinds5[1:] {
+		for _, k := range core.Kinds {
+			for style := 0; style < 2; style++ {
+				s := c06lib.NewScen()
+				inc := map[string]any{"services": map[string]any{"b": map[string]any{"image": "b"}}}
+				inc[kind] = core.KindValue(k, ctx.Rng)
+				s.AddYAML("sub/inc.yaml", style, inc)
+				model := map[string]any{"include": []any{"sub/inc.yaml"}, "services": map[string]any{"a": map[string]any{"image": "a"}}}
+				ctx.Add("c06.applySource", c06lib.ApplyArgs{Files: s.Files, Docs: s.Docs, Envs: s.Envs, WD: c06lib.Root, LWD: c06lib.Root, Env: map[string]string{},
+					Model: core.EncodeVal(model), Chain: []string{c06lib.Root + "/compose.yaml"}, SkipValidation: true})
+				ctx.Count("apply:source-section-kind=" + k)
 			}
 		}
 	}
